@@ -204,6 +204,44 @@ func foreignTags() []string {
 	return out
 }
 
+// windowScenarios: a small concurrency stream.  Partition A (part 5 / ws 77) re-applies its logged event; the
+// storage wrapper holds the re-applier's WLog write at its entry.  Meanwhile partition B (part 6 / ws 78) of the
+// same application issues guarded writes on occupied slots - PutPlog at an occupied offset, PutWlog at an occupied
+// offset, create of an existing record - which must be refused at levels 0 and 1 exactly as without the
+// re-apply; then the held write is released.  Variant "overlap": two re-appliers' WLog writes are in flight
+// together, the first one finishes first; afterwards plain sequential guarded writes on occupied slots.
+func windowScenarios() []*scenario {
+	var out []*scenario
+	evAt := func(pt uint16, pofs, w, wofs uint64, stamp int64, creates []recSpec) *evSpec {
+		return &evSpec{Part: pt, POfs: pofs, WS: w, WOfs: wofs, Stamp: stamp, Creates: creates}
+	}
+	// partition B's guarded writes: occupied PLog offset 3, occupied WLog offset 3, existing record 204799 and the
+	// existing singleton (the events are built from the state before B's own event was applied)
+	attack := []*op{do("plog", "C"), do("plog", "D"), do("wlog", "D"), do("apply", "D")}
+	for t := 0; t <= 1; t++ {
+		for i, b := range backends {
+			setup := []*op{
+				bld("A", evAt(5, 5, 77, 5, 1001, []recSpec{cr(204799, 501)})),
+				bld("B", evAt(6, 3, 78, 3, 1002, []recSpec{cr(204799, 502), {Kind: "WState", Stamp: 503}})),
+				bld("C", evAt(6, 3, 78, 9, 1101, []recSpec{cr(204900, 611)})),
+				bld("D", evAt(6, 4, 78, 3, 1102, []recSpec{cr(204799, 612), {Kind: "WState", Stamp: 613}})),
+				do("plog", "A"), do("apply", "A"), do("wlog", "A"), do("plog", "B"), do("apply", "B"), do("wlog", "B"),
+			}
+			if (i+t)%2 == 0 {
+				setup = append(setup, &op{Op: "restart"})
+			}
+			setup = append(setup, reread("A", "RA"), reread("B", "RB"))
+			held := &op{Op: "reapply_wlog", Name: "RA", Hold: "hA", Inner: attack}
+			out = append(out, &scenario{Cell: "window/guarded-writes-during-a-reapply", Backend: b, Trust: t, Ops: append(append([]*op{}, setup...), held)})
+			over := &op{Op: "reapply_wlog", Name: "RA", Hold: "hA", Inner: []*op{
+				{Op: "reapply_wlog", Name: "RB", Hold: "hB", Inner: []*op{{Op: "release", Name: "hA"}}}}}
+			out = append(out, &scenario{Cell: "window/two-overlapping-reapplies-then-sequential-writes", Backend: b, Trust: t,
+				Ops: append(append(append([]*op{}, setup...), over), attack...)})
+		}
+	}
+	return out
+}
+
 var recordOps = map[string]bool{"create": true, "update": true, "reapply": true}
 
 func kindNames() []string {
@@ -579,6 +617,16 @@ func Generate(seed uint64, n int, tier string, corpusDir string, shard int, out 
 		}
 		if len(missing) > 0 {
 			return fmt.Errorf("matrix incomplete, cells not reached: %s", strings.Join(missing, " "))
+		}
+		for _, sc := range windowScenarios() {
+			if err := emit(sc, out, seen); err != nil {
+				return err
+			}
+		}
+		for _, m := range []string{"mode:4", "mode:5"} {
+			if !seen[m] {
+				return fmt.Errorf("window scenarios did not produce %s steps", m)
+			}
 		}
 		for _, sc := range extras() {
 			if err := emit(sc, out, nil); err != nil {
